@@ -23,10 +23,9 @@ Encodings
 Operations
   lists.tactic <items> <ltactic> <sep 0=Comma|1=VerticalBar> <width>   -> dtactic        `definitive_tactic`
   lists.needs_trailing <dtactic> <sept> <place>                        -> 0|1            `needs_trailing_separator`
-  lists.write <items> <fmt>                -> string | err | unsupported                 `write_list`
-        with `rewrite_comment` := `rewriteCommentLight` (normalize_comments, wrap_comments off);
-        `unsupported` when a comment of the input is outside that model
-  lists.rc <orig> <block_indent> <alignment> <hard_tabs> <tab_spaces>  -> string | unsupported   `rewrite_comment`
+  lists.write <items> <fmt>                -> string | err                               `write_list`
+        with `rewrite_comment` := `rewriteCommentLight` (normalize_comments, wrap_comments off, style edition < 2024)
+  lists.rc <orig> <block_indent> <alignment> <hard_tabs> <tab_spaces>  -> string | err           `rewrite_comment`
   lists.total_width <items>                                            -> <count>:<width>        `calculate_width`
   lists.itemize <sep> <term> <leave_last 0|1> <first_pre:string> <src>   -> items | panic        `itemize_list(..).collect()`
         src: `<item:optstring>|<post_snippet:string>` joined by `;`, `_` for no item
@@ -118,15 +117,6 @@ def decFmt : List String → Option ListFormatting
            shape := ⟨w, ⟨b, a⟩, off⟩, endsWithNewline := ewn, preserveNewline := pn, nested := ne,
            alignComments := ac, config := ⟨ht, ts, mw, 80⟩, normalizeComments := nc }
   | _ => none
-
-/-- Is every comment that `write_list` may hand to `rewrite_comment` inside the model of the rewriter? -/
-def commentsSupported (cfg : Config) (items : List ListItem) : Bool :=
-  let ok (c : List Char) : Bool :=
-    (rewriteCommentLight cfg c false (Shape.legacy 0 Indent.empty)).isSome &&
-    (rewriteCommentLight cfg (trimStart c) false (Shape.legacy 0 Indent.empty)).isSome
-  items.all fun it =>
-    (match it.preComment with | some c => ok c | none => true) &&
-    (match it.postComment with | some c => ok c | none => true)
 
 def encOptS : Option (List Char) → String
   | none => "~"
@@ -281,14 +271,13 @@ def handle (op : String) (args : List String) : Option String :=
       let ts ← ts.toNat?
       pure (match rewriteCommentLight ⟨ht, ts, 100, 80⟩ orig false (Shape.legacy 0 ⟨b, a⟩) with
         | some r => encChars r
-        | none => "unsupported")).getD "?"
+        | none => "err")).getD "?"
   | "lists.write", items :: fmt => some <| (do
       let items ← decItems items
       let f ← decFmt fmt
-      pure (if !commentsSupported f.config items then "unsupported"
-        else match writeList f (rewriteCommentLight f.config) items with
-          | some r => encChars r
-          | none => "err")).getD "?"
+      pure (match writeList f (rewriteCommentLight f.config) items with
+        | some r => encChars r
+        | none => "err")).getD "?"
   | "lists.oracle.items", [items, out] => some <| (do
       let items ← decItems items
       let out ← decChars out
